@@ -240,7 +240,8 @@ OPENCAT_BLOCKS = ["Package::vx_open_tables_row", "Package::vx_open_columns_row_n
 PROPS["C09"]["verus"]["opencat"] = OPENCAT_BLOCKS + ["catalog_str", "catalog_int", "Value::as_str", "Value::as_int", "Value::is_null"]
 PROPS["C09"]["verus"]["joincond"] = ["Join::vx_join_inner_rows", "Join::vx_join_left_rows", "Value::to_bool"]
 PROPS["C09"]["probes"] = dict({b: ["catalognull"] for b in OPENCAT_BLOCKS}, **{"Join::vx_join_inner_rows": ["joincol"], "Join::vx_join_left_rows": ["joincol"], "StringPoolBuilder::build_from_data": ["zerorc"], "StringPool::decref": ["dangling"], "ValueRef::remove": ["dangling"]})
-PROPS["C08"]["probes"] = {"StringPool::decref": ["dangling"], "ValueRef::remove": ["dangling"]}
+PROPS["C08"]["verus"]["droptbl"] = ["Package::drop_table", "Package::comp", "Package::comp_mut", "is_reserved_table_name"]
+PROPS["C08"]["probes"] = {"Package::drop_table": ["droptable"], "StringPool::decref": ["dangling"], "ValueRef::remove": ["dangling"]}
 PROPS["C02"]["probes"] = {"StringPoolBuilder::build_from_data": ["zerorc"]}
 PROPS["C06"]["probes"] = {"Package::create_table_with_name": ["enumsemi"]}
 PROPS["C07"]["probes"] = {"Category::validate": ["category"]}
